@@ -255,19 +255,19 @@ Proof.
                  | rewrite Hct; auto | ].
     rewrite Hce, Hb. exact s4. }
   assert (same_src : forall s i cb, body_source (content_response dc w s i ae cb) = Some src -> s = src).
-  { intros s i cb H. unfold content_response, body_source in H. repeat dmh; cbn in H; congruence. }
+  { intros s i cb. unfold content_response. repeat dmg; cbn; congruence. }
   destruct p; cbn [handler] in *.
   - unfold content_inner in *. destruct (resolve w id) as [| |s i] eqn:Er; try (cbn in Hs'; discriminate).
     pose proof (same_src _ _ _ Hs'); subst s.
-    exists id, i. split; [reflexivity|]. split; [apply resolve_found; auto|]. cbn [cache_flag]; apply lift; reflexivity.
+    exists id, i. split; [reflexivity|]. split; [apply resolve_found; auto|]. apply (lift i true); reflexivity.
   - unfold undelegated_content in *. destruct (w_hidden w id) eqn:Eh; [cbn in Hs'; discriminate|].
     destruct (w_insc w id) as [i|] eqn:Ei; [|cbn in Hs'; discriminate].
     pose proof (same_src _ _ _ Hs'); subst src.
-    exists id, i. split; [reflexivity|]. split; [auto|]. cbn [cache_flag]; apply lift; reflexivity.
+    exists id, i. split; [reflexivity|]. split; [auto|]. apply (lift i true); reflexivity.
   - unfold preview in *. destruct (resolve w id) as [| |s i] eqn:Er; try (cbn in Hs'; discriminate).
     destruct (media i =? MEDIA_IFRAME) eqn:Em.
     + pose proof (same_src _ _ _ Hs'); subst s.
-      exists id, i. split; [reflexivity|]. split; [apply resolve_found; auto|]. cbn [cache_flag]; apply lift; reflexivity.
+      exists id, i. split; [reflexivity|]. split; [apply resolve_found; auto|]. apply (lift i true); reflexivity.
     + destruct (preview_csp w (media i)); cbn in Hs'; discriminate.
   - unfold sat_at_index_content in *.
     destruct (orb (idx <? ISIZE_MIN)%Z (ISIZE_MAX <? idx)%Z); [cbn in Hs'; discriminate|].
@@ -276,7 +276,7 @@ Proof.
     unfold content_inner in *. destruct (resolve w id) as [| |s i] eqn:Er; try (cbn in Hs'; discriminate).
     pose proof (same_src _ _ _ Hs'); subst s.
     exists id, i. split; [cbn; rewrite Ex; exact En|]. split; [apply resolve_found; auto|].
-    cbn [cache_flag]; apply lift; reflexivity.
+    apply (lift i (0 <=? idx)%Z); reflexivity.
   - cbn in Hs'. discriminate.
   - cbn in Hs'. discriminate.
 Qed.
